@@ -254,6 +254,24 @@ def work_tables(job):
                         acc.violation(dict(kind='table', fn='LOOKUP', verdict='differs-from-index-at-match', keys=keys, width=w, v=v,
                                            observed=jsonable(ol[:2]), expected=jsonable(oi[:2])),
                                       f'{f_l} = {ol[:2]!r} but {f_i} = {oi[:2]!r} (keys {keys}, v={v!r})')
+                    # the two vectors need not lie the same way: keys in a column with results in a row, and the reverse
+                    rcol = W.get_column_letter(w)
+                    env_m = dict(env)
+                    for r_ in range(1, h + 1):
+                        cl = W.get_column_letter(r_)
+                        if f'{rcol}{r_}' in env:
+                            env_m[f'{cl}20'] = env[f'{rcol}{r_}']
+                        if f'A{r_}' in env:
+                            env_m[f'{cl}21'] = env[f'A{r_}']
+                    last = W.get_column_letter(h)
+                    for f_m, f_im in ((f'=LOOKUP(K1,{keyr},A20:{last}20)', f'=INDEX(A20:{last}20,1,MATCH(K1,{keyr},1))'),
+                                      (f'=LOOKUP(K1,A21:{last}21,{resr})', f'=INDEX({resr},MATCH(K1,A21:{last}21,1))')):
+                        om, oim = ev.run(f_m, env_m), ev.run(f_im, env_m)
+                        acc.add('evaluations', 2)
+                        if om[0] != 'ok' or (oim[0] == 'ok' and not W.veq(om[1], oim[1])):
+                            acc.violation(dict(kind='table', fn='LOOKUP-mixed', verdict='differs-from-index-at-match', keys=keys, width=w, v=v,
+                                               observed=jsonable(om[:2]), expected=jsonable(oim[:2])),
+                                          f'{f_m} = {om[:2]!r} but {f_im} = {oim[:2]!r} (keys {keys}, v={v!r}; one vector is a column, the other a row)')
                     if w > 1:
                         f_a = f'=LOOKUP(K1,{tbl})'
                         oa = ev.run(f_a, env)
